@@ -3,6 +3,8 @@
 package rules
 
 import (
+	"os"
+	"runtime/debug"
 	"fmt"
 	"go/token"
 	"sort"
@@ -227,6 +229,9 @@ func RunRule(p *ir.Prog, r *Rule, tier string) (c *Ctx) {
 				o.Msg = "anchor lost: " + u.Reason
 			} else {
 				o.Msg = fmt.Sprintf("engine panic: %v", x)
+				if os.Getenv("SIALINT_VERBOSE") != "" {
+					fmt.Fprintf(os.Stderr, "panic in %s: %v\n%s\n", r.ID, x, debug.Stack())
+				}
 			}
 			c.Obs = append(c.Obs, o)
 		}
